@@ -22,6 +22,8 @@ var table = map[string]entry{
 	"C04": {"exploration", checks.C04},
 	"C05": {"exploration", checks.C05},
 	"C06": {"exploration", checks.C06},
+	"C08": {"exploration", checks.C08},
+	"C10": {"exploration", checks.C10},
 	"C12": {"exploration", checks.C12},
 	"C13": {"exploration", checks.C13},
 	"C14": {"exploration", checks.C14},
